@@ -596,7 +596,7 @@ def ordered_programs(rng, n, big=False):
     """C16: single-replica chains of length 1..6; the result must be equal as a sequence."""
     out = []
     for i in range(n):
-        ln = rng.choice([0, 1, 17, 100, 1500] if not big else [0, 1, 100, 5000])
+        ln = rng.choice([0, 1, 17, 100, 1500] if not big else [0, 1, 100, 1500, 3000])
         data = [rng.randrange(0, 1000) for _ in range(ln)]
         nodes = [{"id": "s", "op": "src", "kind": "iter", "data": data}]
         cur = "s"
